@@ -104,7 +104,62 @@ func GenData(r *rand.Rand, w Window, o DataOpt) []store.Series {
 	if o.Hist && r.Intn(2) == 0 {
 		out = append(out, genHist(r, w, o, span)...)
 	}
+	if len(out) > 0 && len(metrics) > 1 && r.Intn(6) == 0 {
+		for _, t := range twin(r, &out[r.Intn(len(out))]) {
+			k := ""
+			for _, x := range t.L {
+				k += x + "\xff"
+			}
+			if !seen[k] { // never two stored series with the same labels
+				seen[k] = true
+				out = append(out, t)
+			}
+		}
+	}
 	return out
+}
+
+// twin: a second series with the same labels under another metric name; the samples of the
+// original are dealt out in alternating blocks, each block closed by a staleness marker, so that
+// after the name is dropped the two take turns over time without sharing a step.
+func twin(r *rand.Rand, s *store.Series) []store.Series {
+	if len(s.T) < 8 || len(s.L) < 2 || s.L[0] != "__name__" {
+		return nil
+	}
+	t := store.Series{L: append([]string{}, s.L...)}
+	t.L[1] = map[string]string{"m1": "m2", "m2": "m3", "m3": "m1"}[s.L[1]]
+	if t.L[1] == "" {
+		return nil
+	}
+	var keepT, moveT []int64
+	var keepV, moveV []store.F
+	toTwin := false
+	for i := 0; i < len(s.T); {
+		n := 2 + r.Intn(4)
+		end := i + n
+		if end > len(s.T) {
+			end = len(s.T)
+		}
+		for j := i; j < end; j++ {
+			v := s.V[j]
+			if j == end-1 && end < len(s.T) {
+				v = store.F(staleNaN) // cut the lookback off at the end of the block
+			}
+			if toTwin {
+				moveT, moveV = append(moveT, s.T[j]), append(moveV, v)
+			} else {
+				keepT, keepV = append(keepT, s.T[j]), append(keepV, v)
+			}
+		}
+		toTwin = !toTwin
+		i = end
+	}
+	s.T, s.V = keepT, keepV
+	t.T, t.V = moveT, moveV
+	if len(t.T) == 0 {
+		return nil
+	}
+	return []store.Series{t}
 }
 
 func interval(r *rand.Rand, span int64) int64 {
